@@ -219,7 +219,7 @@ def write_table(rnd, rows, delim, header, lay):
     w = csv.writer(buf, delimiter=d, quoting=rnd.choice([csv.QUOTE_MINIMAL, csv.QUOTE_ALL, csv.QUOTE_NONNUMERIC]),
                    lineterminator=rnd.choice(['\n', '\r\n']))
     if header:
-        w.writerow([{'date': 'Date', 'amt': 'Amount', 'desc': 'Description', 'cap2': 'Type', 'loc': 'City, State',
+        w.writerow([{'date': 'Date', 'amt': 'Amount', 'desc': rnd.choice(['Description', 'Description\n(as posted)', 'Details\n']), 'cap2': 'Type', 'loc': 'City, State',
                      'extra': 'Card\nMember', 'skip': 'Ref'}[r] for r in lay.roles])
     for r in rows:
         if not r:
